@@ -13,6 +13,7 @@
  *   g2l: the group law of the extension curve in every coordinate system and operand representation: e(G1, [i]Q op [j]Q) = E0^(i op j) for all
  *        pairs of an index alphabet (equal, opposite, identity operands included);
  *   g2f: the Frobenius endomorphism, every power 0..k+1, on affine and projective operands, in place: e(G1, frb^i([j]G2)) = E0^(j p^i);
+ *   map: g1_map / g2_map over message lengths 0..1000 x 3 patterns: image valid and of order r, deterministic, one-bit neighbours separated (C13);
  *   gte: every exponentiation form of the target group against the reference power;
  *   val: validity predicates on members, identities, elements / points outside the groups (twist points found by solving the curve equation),
  *        and cofactor clearing of such points.
@@ -164,6 +165,16 @@ static void do_g2f(vf_case *c) {
 	/* in place */ VF_TRY(th, g2_frb(A, A, pw)); if (!th) { snprintf(w, sizeof w, "g2_frb(., %d) in place on %s [%ld]G2", pw, proj ? "the projective" : "the affine", j); expect_g2(w, A, e); }
 	mpz_clears(e, pp, NULL); g2_free(A); g2_free(X);
 }
+/* map: message length, pattern: hashing to G1 and G2 lands in the order-r subgroups, is deterministic and separates neighbouring messages */
+static void do_map(vf_case *c) {
+	size_t len = mpz_get_ui(c->v[0]); unsigned pat = (unsigned)mpz_get_ui(c->v[1]); int th, v; uint8_t m[1100], m2[1100]; for (size_t i = 0; i < len; i++) m[i] = (uint8_t)(pat == 0 ? 0 : pat == 1 ? 0xFF : i * 7 + pat); memcpy(m2, m, len); if (len) m2[len / 2] ^= 1;
+	g1_t P, P2; g2_t Q, Q2; g1_null(P); g1_new(P); g1_null(P2); g1_new(P2); g2_null(Q); g2_new(Q); g2_null(Q2); g2_new(Q2); bn_t n; bn_null(n); bn_new(n); pc_get_ord(n);
+	VF_TRY(th, g1_map(P, m, len)); if (th) vf_fail(NULL, "g1_map raised for a %zu-byte message", len); else { transitions += 3; VF_TRY(th, v = g1_is_valid(P)); if (th || !v) vf_fail(NULL, "g1_map(%zu bytes, pattern %u): the image is not a valid element of G1", len, pat); g1_t Z; g1_null(Z); g1_new(Z); ep_mul_basic(Z, P, n); if (!g1_is_infty(Z)) vf_fail(NULL, "g1_map(%zu bytes): [r]image != O", len); g1_free(Z);
+		VF_TRY(th, g1_map(P2, m, len)); if (th || g1_cmp(P, P2) != RLC_EQ) vf_fail(NULL, "g1_map is not deterministic (%zu bytes)", len); if (len) { VF_TRY(th, g1_map(P2, m2, len)); if (!th && g1_cmp(P, P2) == RLC_EQ) vf_fail(NULL, "g1_map maps two messages differing in one bit to the same point (%zu bytes)", len); } }
+	VF_TRY(th, g2_map(Q, m, len)); if (th) vf_fail(NULL, "g2_map raised for a %zu-byte message", len); else { transitions += 3; VF_TRY(th, v = g2_is_valid(Q)); if (th || !v) vf_fail(NULL, "g2_map(%zu bytes, pattern %u): the image is not a valid element of G2", len, pat); g2_t Z; g2_null(Z); g2_new(Z); G2FN(mul_basic)(Z, Q, n); if (!g2_is_infty(Z)) vf_fail(NULL, "g2_map(%zu bytes): [r]image != O", len); g2_free(Z);
+		VF_TRY(th, g2_map(Q2, m, len)); if (th || g2_cmp(Q, Q2) != RLC_EQ) vf_fail(NULL, "g2_map is not deterministic (%zu bytes)", len); if (len) { VF_TRY(th, g2_map(Q2, m2, len)); if (!th && g2_cmp(Q, Q2) == RLC_EQ) vf_fail(NULL, "g2_map maps two messages differing in one bit to the same point (%zu bytes)", len); } }
+	g1_free(P); g1_free(P2); g2_free(Q); g2_free(Q2); bn_free(n);
+}
 /* gte: form, scalar index */
 static const char *GER[] = {"gt_exp", "gt_exp_sec", "gt_exp_dig", "gt_exp_gen", "gt_exp_sim", "gt_inv", "gt_sqr / gt_mul", "gt_frb"};
 #define NGER 8
@@ -202,7 +213,7 @@ static void do_val(vf_case *c) {
 static void run_case(vf_case *c) {
 	vf_nontrivial(); if (!vf_replaying) vf_stat_add("states", 1);
 	if (!strcmp(c->op, "base")) { do_base(c); return; } if (!ready) return;
-	if (!strcmp(c->op, "bil")) do_bil(c); else if (!strcmp(c->op, "sim")) do_sim(c); else if (!strcmp(c->op, "g2m")) do_g2m(c); else if (!strcmp(c->op, "g1m")) do_g1m(c); else if (!strcmp(c->op, "g2l")) do_g2l(c); else if (!strcmp(c->op, "g2f")) do_g2f(c); else if (!strcmp(c->op, "gte")) do_gte(c); else if (!strcmp(c->op, "val")) do_val(c); else vf_fail(NULL, "unknown op");
+	if (!strcmp(c->op, "bil")) do_bil(c); else if (!strcmp(c->op, "sim")) do_sim(c); else if (!strcmp(c->op, "g2m")) do_g2m(c); else if (!strcmp(c->op, "g1m")) do_g1m(c); else if (!strcmp(c->op, "g2l")) do_g2l(c); else if (!strcmp(c->op, "g2f")) do_g2f(c); else if (!strcmp(c->op, "map")) do_map(c); else if (!strcmp(c->op, "gte")) do_gte(c); else if (!strcmp(c->op, "val")) do_val(c); else vf_fail(NULL, "unknown op");
 }
 static vf_case K;
 #define RUN2(OP, A, B) do { if (vf_mine() && !vf_expired()) { K.op = OP; K.n = 2; mpz_set_si(K.v[0], A); mpz_set_si(K.v[1], B); vf_run(&K); } } while (0)
@@ -219,6 +230,7 @@ static void enumerate(void) {
 	snprintf(bn, sizeof bn, "c12-k%d-gt-exponentiation-forms", K_); if (vf_bound_on(bn)) { for (int rt = 0; rt < NGER; rt++) for (int k = 0; k < (rt == 7 ? K_ + 2 : NSC); k++) RUN2("gte", rt, k); vf_bound_done(bn); }
 	snprintf(bn, sizeof bn, "c12-k%d-validity-predicates", K_); if (vf_bound_on(bn)) { for (int k = 0; k < NSC; k++) RUN2("val", 0, k); for (int i = 0; i < 12; i++) RUN2("val", 1, i); vf_bound_done(bn); }
 	snprintf(bn, sizeof bn, "c11-k%d-twist-points-outside-the-subgroup-and-cofactor", K_); if (vf_bound_on(bn)) { for (int i = 0; i < (vf_tier ? 12 : 4); i++) RUN2("val", 2, i); vf_bound_done(bn); }
+	snprintf(bn, sizeof bn, "c13-k%d-hashing-to-the-groups", K_); if (vf_bound_on(bn)) { static const long ML[] = {0, 1, 2, 3, 7, 8, 15, 16, 31, 32, 33, 47, 48, 63, 64, 65, 100, 127, 128, 129, 200, 255, 256, 1000}; for (unsigned i = 0; i < sizeof ML / sizeof *ML; i++) for (int pat = 0; pat < 3; pat++) RUN2("map", ML[i], pat); vf_bound_done(bn); }
 	vf_stat_add("transitions", transitions);
 }
 VF_MAIN()
